@@ -218,8 +218,6 @@ def gen_scenario(s: Choices, cls, cfg):
         sc["mask"] = ["none"]
     # execution
     can_chunk = dtype != "bool" and kernel != "size"
-    if sc["mask"][0] == "slice" and sc["mask"][1][2] is not None:
-        can_chunk = False  # stepped slices of a ChunkedArray are not supported by pyarrow
     ex = s.weighted([(6, "threads"), (3 if can_chunk else 0, "chunked_values")])
     if ex == "threads":
         sc["exec"] = ["threads", 2 + s.draw(7)]
